@@ -47,8 +47,9 @@ def is_occupied_rule(ctx: Ctx, rule: str) -> None:
 
     wname = fn.params()[1]
     rows = semtab.function_table(fn.node, rename={wname: "worker"})
-    MT = "self.params.get_numeric('max_tries', 1)"
-    MCT = f"self.params.get_numeric('max_concurrent_tries', {MT})"
+    def reads(expr, key):
+        return {ast.unparse(c) for c in ast.walk(expr) if isinstance(c, ast.Call) and call_name(c) == "get_numeric" and c.args and isinstance(c.args[0], ast.Constant) and c.args[0].value == key}
+
     shape_bad, left_bad, texts = "", "", []
     for prem, (kind, val, _f, _e, _i) in rows:
         texts.append(f"{norm.show(prem)[:80]} -> {val}")
@@ -58,17 +59,22 @@ def is_occupied_rule(ctx: Ctx, rule: str) -> None:
             t = e.args[1]
             if isinstance(t, ast.Call) and ast.unparse(t.func) == "max" and len(t.args) == 2 and any(isinstance(a, ast.Constant) and a.value == 1 for a in t.args):
                 thr = next(a for a in t.args if not (isinstance(a, ast.Constant) and a.value == 1))
-        if thr is None or MCT not in ast.unparse(thr):
+        # the two parameter reads as they appear after substitution of locals (any default; the agreement of the defaults is rule C04.13)
+        mcts = reads(thr, "max_concurrent_tries") if thr is not None else set()
+        if thr is None or len(mcts) != 1:
             shape_bad = shape_bad or f"the occupation threshold changed: {val}"
             continue
+        MCT = next(iter(mcts))
+        mts = reads(thr, "max_tries") | {x for p_ in [prem] for a_ in norm.atoms_of(p_) for x in reads(ast.parse(a_, mode="eval").body, "max_tries")}
+        MTS = sorted(mts, key=len, reverse=True)
         # tries left: min(<re-entrancy>, max_tries - <number of finished results>) unless the re-entrancy was raised above max_tries on purpose
         bounded = False
         for m in ast.walk(thr):
             if isinstance(m, ast.Call) and ast.unparse(m.func) == "min":
                 for a in m.args:
-                    if isinstance(a, ast.BinOp) and isinstance(a.op, ast.Sub) and ast.unparse(a.left) == MT and "len(" in ast.unparse(a.right) and "results" in ast.unparse(a.right):
+                    if isinstance(a, ast.BinOp) and isinstance(a.op, ast.Sub) and ast.unparse(a.left) in mts and "len(" in ast.unparse(a.right) and "results" in ast.unparse(a.right):
                         bounded = True
-        raised = norm.implies(prem, norm.neg(norm.formula(ast.parse(f"{MCT} <= {MT}", mode="eval").body)))
+        raised = any(norm.implies(prem, norm.neg(norm.formula(ast.parse(f"{MCT} <= {m_}", mode="eval").body))) for m_ in MTS)
         if not bounded and not raised:
             left_bad = left_bad or ("a worker is admitted to a node while fewer than max_concurrent_tries (default max_tries) workers execute it, whether or not a try is left for it: "
                                     "with the last try in flight elsewhere the newcomer is let in, has nothing to run (the in-flight result counts as a spent try), "
@@ -172,6 +178,31 @@ def reentrancy_rule(ctx: Ctx, rule: str) -> None:
                {"paths": n2}, "" if bad2 is None else "the waiting budget of the occupied branch is no longer tracked per node")
 
 
+def tries_default_agreement(ctx: Ctx, rule: str) -> None:
+    """How many tries a test has is read in three places: the rerun decision, the tries-left bound of is_occupied and the wait budget of a
+    waiting worker.  They must use the same default, or the holder legitimately runs more tries than the waiter budgets for (under replay the
+    rerun decision defaults to 2 tries).  The default of the re-entrancy limit (max_concurrent_tries) is a different quantity and excluded."""
+    import re as _re
+
+    sites = {}
+    for fref in (f"{NODE}:TestNode.should_rerun", f"{NODE}:TestNode.is_occupied", T.TOT):
+        fn = ctx.repo.func(fref)
+        ctx.touch(fref)
+        inner = {id(a) for c in calls_in(fn.node) if call_name(c) == "get_numeric" and c.args and isinstance(c.args[0], ast.Constant) and c.args[0].value == "max_concurrent_tries"
+                 for a in c.args[1:] for a in ast.walk(a)}
+        for c in calls_in(fn.node):
+            if call_name(c) == "get_numeric" and c.args and isinstance(c.args[0], ast.Constant) and c.args[0].value == "max_tries" and id(c) not in inner:
+                d = ast.unparse(c.args[1]) if len(c.args) > 1 else "<none>"
+                d = _re.sub(r"\b(self|next|test_node)\.params\b", "P", d)
+                sites.setdefault(fref.split(":")[-1], set()).add(d)
+    defaults = set().union(*sites.values()) if sites else set()
+    ok = len(sites) == 3 and len(defaults) == 1
+    ctx.record(rule, "SIBLING", f"{NODE}:TestNode.is_occupied", "the rerun decision, the tries-left bound of is_occupied and the wait budget read max_tries with one and the same default", ok,
+               {k: sorted(v) for k, v in sites.items()},
+               "" if ok else f"the number of tries defaults differently: { {k: sorted(v) for k, v in sites.items()} } - under replay the rerun decision grants 2 tries while the waiter budgets "
+               "for 1: it gives up after one timeout, is let in, finds no try left and runs the dependants while the second try is still running")
+
+
 def run(ctx: Ctx) -> None:
     from .c02 import wait_budget
 
@@ -183,6 +214,7 @@ def run(ctx: Ctx) -> None:
     ctx.call(T.t_s1, "5/T.S1")
     ctx.call(T.t_s1c, "5c/T.S1c")
     ctx.call(is_occupied_rule, "6")
+    ctx.call(tries_default_agreement, "13")
     ctx.call(reentrancy_rule, "7")
     ctx.call(occupied_bounce, "8")
     from ..kinds import signature_defaults
